@@ -217,7 +217,9 @@ def builtin_cases():
         for v in vals:
             c.append(("p :- %s(%s)." % (t, v), "p", ["yes"], True))
         for v in neg[t]:
-            c.append(("p :- %s(%s)." % (t, v), "p", [], True))
+            # is_list on a partial list: a listed known finding (own violation name, see known_findings.json)
+            c.append(("p :- %s(%s)." % (t, v), "p", [],
+                      "bounded:builtin:is_list-partial-list" if (t, v) == ("is_list", "[a|T]") else True))
     for a, op, b, exp in ((1, "<", 2, 1), (2, "<", 1, 0), (2, "=<", 2, 1), (3, ">", 2, 1), (2, ">=", 3, 0),
                           (2, "=:=", 2, 1), (2, "=\\=", 2, 0), (1.5, "<", 2.5, 1), (-3, "<", -2, 1), (10, ">", 9, 1),
                           (2.0, "=:=", 2.0, 1)):
@@ -276,8 +278,9 @@ def run(tier, seed):
     # 3. comparison and term-inspection builtins, supported modes
     col = Collector("C16:builtins", "between/3, succ/2, plus/3, length/2, functor/3, arg/3, =../2, type tests and "
                     "arithmetic comparisons on their supported modes vs ISO answers (hand-written table, exhaustive)")
-    for prog, goal, exp, _ in builtin_cases():
+    for prog, goal, exp, tag in builtin_cases():
         st, res = query(prog, goal)
+        vname = tag if isinstance(tag, str) else "bounded:builtin:answers"
         col.case(prog)
         if st == "exc":
             if res.startswith("internal:") or exp != "error":
@@ -285,7 +288,7 @@ def run(tier, seed):
             continue
         got = sorted(_fmt(a) for a in res)
         if got != sorted(exp):
-            col.violation("bounded:builtin:answers", "%s answered %s, Prolog answers %s" % (prog, got, sorted(exp)),
+            col.violation(vname, "%s answered %s, Prolog answers %s" % (prog, got, sorted(exp)),
                           dict(program=prog))
     out.append(col.result())
     return out
